@@ -232,7 +232,14 @@ struct BufFamily : Family {
     }
     std::vector<unsigned char> tmp(want + 4);
     size_t                     l = tmp.size();
-    if (ares_buf_tag_fetch_bytes(in->buf, tmp.data(), &l) != ARES_SUCCESS || l != want || (want && memcmp(tmp.data(), in->s.data() + in->tag, want) != 0)) {
+    ares_status_t tfb = ares_buf_tag_fetch_bytes(in->buf, tmp.data(), &l);
+    // A zero-length tag on a buffer that never held any data has nothing to point at: the library answers
+    // ARES_EFORMERR there (it has no data pointer at all); that is not a lost byte, so it is accepted.
+    if (tfb == ARES_EFORMERR && want == 0 && tp == nullptr) {
+      l   = 0;
+      tfb = ARES_SUCCESS;
+    }
+    if (tfb != ARES_SUCCESS || l != want || (want && memcmp(tmp.data(), in->s.data() + in->tag, want) != 0)) {
       ctx.fail("tag-mismatch", "ares_buf_tag_fetch_bytes disagrees with the model");
       return;
     }
@@ -250,6 +257,7 @@ struct BufFamily : Family {
       if (c < 0x20 || c > 0x7e) printable = false;
     }
     st = ares_buf_tag_fetch_string(in->buf, str.data(), str.size());
+    if (st == ARES_EFORMERR && want == 0 && tp == nullptr) return; // zero-length tag on a buffer without any data (see above)
     if (st != (printable ? ARES_SUCCESS : ARES_EBADSTR) || (printable && (strlen(str.data()) != want || memcmp(str.data(), in->s.data() + in->tag, want) != 0)))
       ctx.fail("tag-mismatch", "ares_buf_tag_fetch_string disagrees with the model");
   }
